@@ -16,9 +16,10 @@
 -/
 namespace Pg.C18
 
-abbrev Name := String
+/-- Parameter / keyword names; the driver interns the strings of a request. -/
+abbrev Name := Nat
 abbrev V := Int
-/-- A Python `dict` with string keys in insertion order. -/
+/-- A Python `dict` with (interned) string keys in insertion order. -/
 abbrev KW := List (Name × V)
 
 /-! ### Python dict primitives -/
@@ -114,7 +115,7 @@ unknown name goes to `**kwargs` if declared, else unexpected keyword. -/
 def bindKw (s : Sig) : KW → Named → Except BindErr Named
   | [], n => .ok n
   | (k, v) :: r, n =>
-    if k ∈ s.names then
+    if s.names.contains k then
       if khas n.named k then .error .multipleValues
       else bindKw s r { n with named := n.named ++ [(k, v)] }
     else if s.varkw.isSome then
